@@ -306,6 +306,7 @@ func (wk *worker) onePath(fn *ssa.Function, prefix []decision) {
 	i.ps = ps
 	i.depth = 0
 	i.replaced = nil
+	i.pools = nil
 	i.panicStack = nil
 	i.callStack = i.callStack[:0]
 	for k := range i.funcsHit {
